@@ -1286,11 +1286,9 @@ Section PrefixFree.
     - inversion Hp.
     - inversion Hp as [[E1 E2]]. apply (path_nil_root U) in P1. subst root.
       apply (NR af1 Haf1). auto.
-    - inversion Hp as [[E1 E2]]. destruct (map esc p1); discriminate.
-    - inversion Hp as [[E2]].
-      change (esc k2 :: map esc p2 ++ [snd af2]) with (map esc (k2 :: p2) ++ [snd af2]) in E2.
-      change (esc k1 :: (map esc p1 ++ [snd af1]) ++ x :: rest)
-        with ((map esc (k1 :: p1) ++ [snd af1]) ++ x :: rest) in E2.
+    - inversion Hp.
+    - assert (E2 : map esc (k2 :: p2) ++ [snd af2] = (map esc (k1 :: p1) ++ [snd af1]) ++ x :: rest).
+      { simpl. inversion Hp. reflexivity. }
       destruct (esc_prefix_split Hinj _ _ _ _ _ _ E2) as [k [rest' [Epos Ek]]].
       rewrite Epos in P2.
       destruct (path_split U _ _ _ P1 _ _ _ P2) as [r [b [Hin Hb]]].
